@@ -7,8 +7,8 @@ from . import irv_common as I
 class C03(Prop):
     pid = "C03"
     sources = ["socialchoicekit/deterministic_matching.py", "socialchoicekit/flow.py"]
-    groups = {"irv": Group("irv", "From SCK Require Import Irving RunIrv.", "RunIrv.irv_case", "RunIrv.chk_irv"),
-              "opt": Group("opt", "From SCK Require Import StableCheck.", "StableCheck.opt_case", "StableCheck.chk_opt")}
+    groups = {"irv": Group("irv", "From SCK Require Import Irving RunIrv.", "RunIrv.irv_case", "RunIrv.chk_irv", shard=12),
+              "opt": Group("opt", "From SCK Require Import StableCheck.", "StableCheck.opt_case", "StableCheck.chk_opt", shard=10)}
     rule = ("exhaustive n<=2 (all profile pairs) and a slice of n=3 x valuation kinds {borda, halved (ties), zeros, random 0..9, distinct}; random n<=8; cyclic Latin squares (chain posets) up to n=12; "
             "noisy Latin squares; k blocks of 3 (k<=5 quick, <=12 thorough: 2k rotations, shallow poset, the family that exposed the elimination-order defect); with and without ordinal profiles; "
             "int32/int64/float64 rank dtypes. Every intermediate structure (man-optimal matching, shortlists, rotations, eliminating-rotation table, sparse poset, weights, closed subset) and the final "
@@ -35,6 +35,13 @@ class C03(Prop):
             vk = rng.choice(["borda", "rand", "ties", "zero", "distinct"])
             V1, V2 = I.gen_valuations(rng, P1l, P2l, vk)
             yield dict(entry="Irving.scf", family="n3", P1=P1l, P2=P2l, V1=V1, V2=V2, with_profiles=(vk != "distinct"), zi=True)
+        # many-rotation block compositions (>= 9 rotations: the family on which elimination order matters)
+        for i in range(40 if tier == "quick" else 400):
+            kb = rng.choice([5, 5, 6, 8] if tier == "quick" else [5, 6, 8, 10, 12])
+            P1, P2 = I.block_instance(kb)
+            vk = rng.choice(["rand", "rand", "ties", "borda"])
+            V1, V2 = I.gen_valuations(rng, P1, P2, vk)
+            yield dict(entry="Irving.scf", family="block", P1=P1, P2=P2, V1=V1, V2=V2, with_profiles=True, zi=bool(i % 2), stages=(kb <= 5))
         N = 140 if tier == "quick" else 3000
         for i in range(N):
             kind = rng.choice(["rand", "rand", "latin", "block", "noisy"])
@@ -95,7 +102,7 @@ class C03(Prop):
 
     def coq(self, case, obs):
         P1, P2 = self.ordinal(case)
-        if len(P1) > 9:
+        if len(P1) > 15 or "ff" not in obs:
             return None
         if case.get("cpv"):
             # certified per-case validation: the proved checker optimal_b evaluated on the implementation's output
